@@ -123,6 +123,8 @@ def run(ctx, R):
         R.floor("r1", "tables handling %s" % v, len(present), 3)
 
     # ---------------- r2: guards in the blanket VertexInfo impl
+    filter_readers = {g["path"] for g in C.fns if g["path"].startswith(HINTS) and "::tests" not in g["path"] and not g.get("impl_trait") and
+                      any(n.get("k") == "field" and n.get("name") == "filters" and (n.get("adt") or "").endswith("ir::IRVertex") for n in walk(g["body"]))}
     guarded = []
     for f in C.fns:
         if f.get("impl_trait") != HINTS + "::vertex_info::VertexInfo":
@@ -130,7 +132,10 @@ def run(ctx, R):
         ret = C.S(f.get("ret_ty")) or ""
         uses_mandatory = any((n.get("def") or n.get("callee") or "").endswith("EdgeInfo::is_mandatory")
                              for n in walk(f["body"]))
-        reads_filters = any(n.get("k") == "call" and (n.get("callee") or "").endswith("filters_on_local_property")
+        # by role, not by name: "reads the vertex's filters" = reads IRVertex.filters itself or calls a function of the hints module
+        # that does (today: filters_on_local_property)
+        reads_filters = any((n.get("k") == "field" and n.get("name") == "filters" and (n.get("adt") or "").endswith("ir::IRVertex")) or
+                            (n.get("k") == "call" and (n.get("callee") or "") in filter_readers)
                             for n in walk(f["body"]))
         if ("CandidateValue" in ret or "DynamicallyResolvedValue" in ret) and reads_filters or uses_mandatory:
             guarded.append(f)
